@@ -191,6 +191,16 @@ class Func:
             return None
         if k == 'call' and 'fk' in n and n.get('org') == 1:
             return self.F.const_return(n['fk'], depth + 1)
+        if k == 'ref' and n.get('dk') == 'local':
+            # `const bool b = <constant>; if (b)` : a const-qualified local, declared once in the function, is its initialiser
+            ds = [v for m in self.nodes if m and m['k'] == 'decl' for v in m['vars'] if v['n'] == n['n']]
+            if len(ds) == 1 and ds[0]['hasinit'] and not ds[0].get('static') and not ds[0].get('ref'):
+                isconst = str(self.F.strs[ds[0]['t']]).startswith('const ')
+                if not isconst:
+                    # not declared const: every use must be a plain read (never assigned, incremented, bound or address-taken)
+                    reads = {m['e'] for m in self.nodes if m and m['k'] == 'icast' and m.get('ck') == 'LValueToRValue'}
+                    isconst = all(m.get('rv') == 1 or j in reads for j, m in enumerate(self.nodes) if m and m['k'] == 'ref' and m.get('dk') == 'local' and m['n'] == n['n'])
+                if isconst: return self.eval_const(ds[0]['init'], depth + 1)
         return None
     @property
     def entry(self): return self.d.get('entry')
